@@ -1025,10 +1025,14 @@ def gen_conc(rng):
 
 def _examine_conc(scn):
     import random
+    if _HANGS[0] >= 2:
+        return {'acts': [], 'snaps': [], 'toks': {}, 'errors': {}, 'unfinished': [], 'nfixed': 0, 'truncated': False,
+                'nhit': 0, 'bad': [], 'skipped': True}
     try:
         with _Watchdog(120):
             res = run_conc(scn, random.Random(scn.get('seed', 0)))
     except RequestHung:
+        _HANGS[0] += 1
         _Env.inst = None
         return {'acts': [], 'snaps': [], 'toks': {}, 'errors': {}, 'unfinished': [], 'nfixed': 0, 'truncated': False,
                 'nhit': 0, 'bad': [('the interleaving scenario never came back (120 s): a real blocking call in the '
@@ -1063,6 +1067,9 @@ def check_conc(ctx, scns, procs=None, expects=None, compare=True):
     lines = [conc_line(s, r['acts']) for s, r in zip(scns, results)]
     model_out = ctx.model(lines) if compare else None
     for idx, (scn, r) in enumerate(zip(scns, results)):
+        if r.get('skipped'):
+            ctx.count('skipped-after-hangs')
+            continue
         case = {'conc': dict(scn, acts=r['acts'], plan=None)}
         ctx.case(case, nontrivial=(r['nhit'] > 0 or any('ev.wait' in s for s in r['snaps'][-1:])), key=lines[idx])
         ctx.count('conc:threads:%d' % len(scn['reqs']))
@@ -1710,15 +1717,22 @@ class _Watchdog:
         return False
 
 
+_HANGS = [0]     # requests of the code under test that never came back, in this process
+
+
 def _examine(case):
     """Worker: run one history on the real code, evaluate the oracle.  Picklable result."""
+    if _HANGS[0] >= 2:
+        # this process has met two hanging requests already: they are reported; do not spend the run on more
+        return {'toks': [], 'tail': '|', 'nhit': 0, 'bad': [], 'skipped': True}
     try:
-        with _Watchdog(60):
+        with _Watchdog(15):
             res = run_history(case)
     except RequestHung:
+        _HANGS[0] += 1
         _Env.inst = None       # whatever that request left behind is not reused
         return {'toks': ['HUNG'], 'tail': '|', 'nhit': 0,
-                'bad': [('a request of this history never came back (60 s)', 'request_never_answered')]}
+                'bad': [('a request of this history never came back (15 s)', 'request_never_answered')]}
     toks, tail = canon_real(res)
     return {'toks': toks, 'tail': tail, 'bad': oracle(case, res),
             'nhit': sum(1 for t in toks if t.startswith('H'))}
@@ -1760,6 +1774,9 @@ def check_cases(ctx, cases, compare=True, procs=None):
     model_out = ctx.model(lines) if compare else None
     reported = set()
     for idx, (case, r) in enumerate(zip(cases, results)):
+        if r.get('skipped'):
+            ctx.count('skipped-after-hangs')
+            continue
         ctx.case(case, nontrivial=r['nhit'] > 0, key=lines[idx])
         ctx.count('ops:%02d-%02d' % (len(case['ops']) // 10 * 10, len(case['ops']) // 10 * 10 + 9))
         for t in r['toks']:
